@@ -112,3 +112,41 @@ func OnceFunc(f func()) func() {
 	var o Once
 	return func() { o.Do(f) }
 }
+
+// Cond is the simulated sync.Cond. Signal wakes every waiter (a legal
+// over-approximation for code that re-checks its condition in a loop, as the
+// sync.Cond documentation requires).
+type Cond struct {
+	L   Locker
+	gen atomic.Uint64
+}
+
+func NewCond(l Locker) *Cond { return &Cond{L: l} }
+
+func (c *Cond) Wait() {
+	s := simrt.Active()
+	if s == nil || s.Self() == nil {
+		panic("ssync.Cond.Wait outside a simulation is not supported")
+	}
+	g := c.gen.Load()
+	c.L.Unlock()
+	s.WaitCond("cond.Wait", func() bool { return c.gen.Load() != g })
+	c.L.Lock()
+}
+
+func (c *Cond) Signal()    { simrt.Yield("cond.Signal"); c.gen.Add(1) }
+func (c *Cond) Broadcast() { simrt.Yield("cond.Broadcast"); c.gen.Add(1) }
+
+// OnceValue / OnceValues mirror the sync helpers on top of the simulated Once.
+func OnceValue[T any](f func() T) func() T {
+	var o Once
+	var v T
+	return func() T { o.Do(func() { v = f() }); return v }
+}
+
+func OnceValues[T1, T2 any](f func() (T1, T2)) func() (T1, T2) {
+	var o Once
+	var a T1
+	var b T2
+	return func() (T1, T2) { o.Do(func() { a, b = f() }); return a, b }
+}
